@@ -205,14 +205,67 @@ def load(config, repo=None):
         with open(p) as f:
             txt = f.read()
         data = json.loads(txt)
+        txt2 = canonical_impl_paths(txt, data)
+        if txt2 != txt:
+            txt = txt2
+            data = json.loads(txt)
         aliases = module_aliases(data)
         if aliases:
-            for sub, parent in aliases:
-                txt = txt.replace(sub + "::", parent + "::")
+            import re
+            for src, dst in sorted(aliases, key=lambda x: -len(x[0])):
+                txt = re.sub(re.escape(src) + r"(?![A-Za-z0-9_])", dst.replace("\\", "\\\\"), txt)
             data = json.loads(txt)
             data["module_aliases"] = aliases
+        from gcv import canon
+        all_roles = []
+        for _round in range(8):
+            roles = canon.role_aliases(data)
+            if not roles:
+                break
+            for src, dst in sorted(set(roles), key=lambda x: -len(x[0])):
+                txt = substitute_path(txt, src, dst)
+            data = json.loads(txt)
+            all_roles += [r for r in roles if r not in all_roles]
+        if all_roles:
+            data["role_aliases"] = all_roles
         _loaded[p] = data
     return _loaded[p]
+
+
+def substitute_path(txt, src, dst):
+    """Replace the definition path `src` by `dst` in the raw fact text. Raw paths carry generic argument lists between
+    segments (`context::PhaseGuard::<'a>::switch`), which are kept."""
+    import re
+    ss, ds = src.split("::"), dst.split("::")
+    if len(ss) == len(ds) and ss[:-1] == ds[:-1]:
+        # same parent, another last segment (a renamed method / function / type)
+        pre = r"(?:::<[^<>]*>)?::".join(re.escape(x) for x in ss[:-1])
+        pat = "(" + pre + r"(?:::<[^<>]*>)?::)" + re.escape(ss[-1]) + r"(?![A-Za-z0-9_])" if ss[:-1] else re.escape(src) + r"(?![A-Za-z0-9_])"
+        return re.sub(pat, (lambda m: m.group(1) + ds[-1]) if ss[:-1] else dst, txt)
+    return re.sub(re.escape(src) + r"(?![A-Za-z0-9_])", dst, txt)
+
+
+def canonical_impl_paths(txt, data):
+    """An inherent or trait impl block may live in another module than its Self type (`mod mark { impl Context {..} }`):
+    rustc then names the methods `context::mark::<impl context::Context>::trace` resp.
+    `context::sweep::<impl Drop for context::Context>::drop`. A method belongs to its Self type wherever the block is
+    written, so for crate-local, non-generic Self types these are read as `context::Context::trace` and
+    `<context::Context as Drop>::drop` (the forms the same code has when the block sits next to the type)."""
+    import re
+    local = {re.sub(r"<.*", "", a["path"]) for a in data.get("adts", [])}
+    if "<impl " not in txt:
+        return txt
+    mod = r"[a-z_][a-z_0-9]*(?:::[a-z_][a-z_0-9]*)*"
+    ty = r"[a-z_][a-z_0-9]*(?:::[a-z_][a-z_0-9]*)*::[A-Z][A-Za-z0-9_]*"
+
+    def inherent(m):
+        return (m.group(2) + "::") if m.group(2) in local else m.group(0)
+
+    def trait_impl(m):
+        return ("<%s as %s>::" % (m.group(3), m.group(2))) if m.group(3) in local else m.group(0)
+    txt = re.sub(r"(%s)::<impl (%s)>::" % (mod, ty), inherent, txt)
+    txt = re.sub(r"(%s)::<impl ([A-Za-z_][A-Za-z0-9_:]*) for (%s)>::" % (mod, ty), trait_impl, txt)
+    return txt
 
 
 _anchor_cache = []
@@ -237,43 +290,41 @@ def anchor_paths():
 
 
 def module_aliases(data):
-    """Private items may move into a (new) private submodule without any behaviour changing
-    (`dynamic_roots::Slots` -> `dynamic_roots::slots::Slots`). The rules name items by their path on the pinned
-    tree; when such a path is gone and exactly one item of the same name exists deeper inside the same module, the
-    submodule is read as its parent (provided no two items collide). Returns [(submodule, parent)]."""
+    """Private items may move to another module (a new private submodule, a sibling file) without any behaviour
+    changing (`dynamic_roots::Slots` -> `dynamic_roots::slots::Slots`, `context::Mutation` -> `mutation::Mutation`).
+    The rules name items by their path on the pinned tree; when such a path is gone and exactly one item with the same
+    name (type, free function, or `Type::method`) exists elsewhere in the crate, that item is read under the pinned
+    path (provided the pinned path is not taken by something else). Returns [(current path, pinned path)]."""
     import re
     items = set()
     for a in data.get("adts", []):
         items.add(re.sub(r"<.*", "", a["path"]))
     for f in data.get("fns", []):
         items.add(re.sub(r"::<[^>]*>|<[^>]*>", "", f["path"]))
+    for m in data.get("macros", []):
+        items.add(m["path"])
     items = {i for i in items if i and not i.startswith("<")}
+    types = {re.sub(r"<.*", "", a["path"]) for a in data.get("adts", [])}
     aliases = {}
     for a in anchor_paths():
         segs = a.split("::")
         # the type (or free function) part of the anchor: drop a trailing method segment when the one before is a type
-        heads = [a]
+        head = a
         if len(segs) >= 3 and segs[-2][:1].isupper():
-            heads.append("::".join(segs[:-1]))
-        for h in heads:
-            if h in items or any(i.startswith(h + "::") for i in items):
-                break
-        else:
-            h = heads[-1]
-            hs = h.split("::")
-            first, rest = hs[0], "::".join(hs[1:])
-            c = sorted({i for i in items if i.startswith(first + "::") and i.endswith("::" + rest) and i != h})
-            if len(c) == 1:
-                sub = c[0][: -len("::" + rest)]
-                parent = "::".join(hs[:-len(rest.split("::"))])
-                if sub != parent and sub.startswith(parent + "::"):
-                    aliases[sub] = parent
+            head = "::".join(segs[:-1])
+        if head in items or any(i.startswith(head + "::") for i in items):
+            continue
+        name = head.split("::")[-1]
+        pool = types if name[:1].isupper() else items
+        c = sorted({i for i in pool if i.endswith("::" + name) and i != head})
+        if len(c) == 1:
+            aliases[c[0]] = head
     out = []
-    for sub, parent in sorted(aliases.items()):
-        moved = {i for i in items if i.startswith(sub + "::")}
-        if any((parent + i[len(sub):]) in items for i in moved):
-            continue    # a name exists on both levels: not a plain move
-        out.append((sub, parent))
+    for src, dst in sorted(aliases.items()):
+        moved = {i for i in items if i == src or i.startswith(src + "::")}
+        if any((dst + i[len(src):]) in items for i in moved):
+            continue    # the pinned path is taken: not a plain move
+        out.append((src, dst))
     return out
 
 
